@@ -544,10 +544,12 @@ def run(ctx):
         alpha = S.SUBJECTS[name].alphabet
         for prefix in itertools.product(alpha, repeat=min(3, L)):
             items.append((name, ext, L, prefix))
-    accs = par.pmap(_work, items, seed=ctx.seed, chunks_per_job=8)
+    # a fresh worker pool per slice: repositories opened by the library stay alive in reference cycles
+    # through extension objects, so a long-lived worker would grow without bound
     acc = Acc()
-    for a in accs:
-        acc.merge(a)
+    for lo in range(0, len(items), 160):
+        for a in par.pmap(_work, items[lo:lo + 160], seed=ctx.seed, chunks_per_job=2):
+            acc.merge(a)
     LC = ctx.q(4, 5)
     citems = [(fmt, LC, p) for fmt in ("2a", "dirstate-tags") for p in itertools.product(COUPLED_OPS, repeat=2)]
     acc2 = Acc()
@@ -580,3 +582,13 @@ def run(ctx):
         "samples": acc.samples[:3] + [{"coupled": ["tree.W", "branch.R", "repo.U", "tree.U"]}],
         "exhaustive": True,
     }
+
+
+def replay(ctx, data):
+    """Re-run the recorded sequence on fresh objects; True when the property holds."""
+    d = data["first"]
+    acc = Acc()
+    if "subject" in d:
+        return run_sequence(subject(d["subject"], bool(d["lock_held_elsewhere"])), tuple(d["sequence"]), acc) is None
+    c = Coupled(world(), d["format"])
+    return run_coupled(c, [tuple(x.split(".")) for x in d["sequence"]], acc) is None
